@@ -78,6 +78,26 @@ def run_tlc(specdir, module, cfg, workers=16, timeout=3600, outfile=None, extra=
         raise Infra("TLC did not complete cleanly on %s/%s (exit %d):\n%s" % (module, cfg, r.returncode, "".join(tail)))
     return outfile, gen, dist
 
+def run_model(specdir, module, cfg, expect, workers=16, timeout=1800):
+    """Model-checks a design-level config.  expect = "hold" or the name of the property that a
+    deviation config must violate (vacuity guard, DESIGN.md 4.6).  Returns (generated, distinct)."""
+    md = tempfile.mkdtemp(prefix="md-", dir=specdir)
+    outfile = os.path.join(specdir, module + "." + cfg + ".out")
+    cmd = ["timeout", str(timeout), "tlc", "-workers", str(workers), "-metadir", md, "-config", cfg, module]
+    with open(outfile, "w") as f:
+        r = subprocess.run(cmd, cwd=specdir, env=TLCENV, stdout=f, stderr=subprocess.STDOUT)
+    shutil.rmtree(md, ignore_errors=True)
+    txt = open(outfile, errors="replace").read()
+    m = _re_states.search(txt)
+    gen, dist = (int(m.group(1)), int(m.group(2))) if m else (0, 0)
+    if expect == "hold":
+        if "Model checking completed. No error has been found." not in txt:
+            raise Infra("design model %s/%s: a property of the specification does not hold:\n%s" % (module, cfg, txt[-3000:]))
+    else:
+        if ("%s is violated" % expect) not in txt:
+            raise Infra("vacuity guard: deviation config %s/%s no longer violates %s:\n%s" % (module, cfg, expect, txt[-2000:]))
+    return gen, dist
+
 _re_case = re.compile(r'^("CASE .*")\s*$')
 
 def extract_cases(tlc_out, dest, fam, start_id, extra_fields=None):
